@@ -330,8 +330,11 @@ inductive Stmt where
   | assign (target : String) (rhs : ArgExpr)
   /-- `tag.tick_time = <rhs>` for the system tags (first tick) -/
   | stamp (rhs : ArgExpr)
-  /-- a call, with the translated first positional argument -/
-  | call (name : String) (arg0 : Option ArgExpr)
+  /-- a call, with the translated first positional argument and two facts the translator establishes structurally:
+      `reach` = the call may reach a tag (false only for logging, container access, and methods of an annotated
+      attribute's class whose implementations make no calls); `passes` = the callee declares `tick_time` as its
+      first parameter, i.e. the call hands the tick time down -/
+  | call (name : String) (arg0 : Option ArgExpr) (reach : Bool) (passes : Bool)
 deriving Repr, DecidableEq
 
 structure Env where
@@ -362,35 +365,25 @@ def ArgExpr.ok : ArgExpr → Bool
   | .forward => true
   | _ => false
 
-/-- calls of `Engine.tick` that cannot reach a tag (timer, container access, logging) -/
-def structuralCall (name : String) : Bool :=
-  name = "self._tick_timer.stop" || name = "self._system_tags.tags.values" ||
-  name.startsWith "logger." || name.startsWith "frontend_logger."
-
-/-- calls that hand the tick time down (their first argument is the callee's `tick_time`) -/
-def timeCallee (name : String) : Bool :=
-  name = "self.interpreter.tick" || name = "self.tracking.tick" || name = "self._command_manager.tick" ||
-  name = "self.update_calculated_tags" || name = "self.emitter.emit_on_tick"
-
 /-- `Engine.tick`: effect of one statement on the environment (only the field assignment has one) -/
 def execEngineStmt (e : Env) : Stmt → Env
   | .assign _ rhs => { e with engineField := evalArg e 0 0 rhs }
   | _ => e
 
 /-- run `Engine.tick`'s statements up to the call named `phase` (the first one); returns the environment at that
-    call, the argument expression of the call and the statements after it -/
-def advance (phase : String) : List Stmt → Env → Option (Env × Option ArgExpr × List Stmt)
+    call, the argument expression and the two flags of the call, and the statements after it -/
+def advance (phase : String) : List Stmt → Env → Option (Env × Option ArgExpr × Bool × Bool × List Stmt)
   | [], _ => none
-  | .call n a :: rest, e => if n = phase then some (e, a, rest) else advance phase rest e
+  | .call n a r p :: rest, e => if n = phase then some (e, a, r, p, rest) else advance phase rest e
   | s :: rest, e => advance phase rest (execEngineStmt e s)
 
-/-- successive phases of one tick -/
+/-- successive phases of one tick (calls that may reach a tag) -/
 def advanceMany : List String → List Stmt → Env → Option (Env × List Stmt)
   | [], st, e => some (e, st)
   | p :: ps, st, e =>
     match advance p st e with
-    | none => none
-    | some (e', _, rest) => advanceMany ps rest e'
+    | some (e', _, true, _, rest) => advanceMany ps rest e'
+    | _ => none
 
 /-- run up to the bulk stamp of the first tick -/
 def advanceStamp : List Stmt → Env → Option (Env × ArgExpr × List Stmt)
@@ -417,9 +410,9 @@ def freshOK : Bool → List Stmt → Bool
   | _, [] => true
   | _, .assign _ rhs :: rest => freshOK (rhs = .param) rest
   | f, .stamp rhs :: rest => (rhs = .param || (rhs = .engineField && f)) && freshOK f rest
-  | f, .call n a :: rest =>
-    (structuralCall n || f) &&
-    (!timeCallee n || a = some .param || (a = some .engineField && f)) && freshOK f rest
+  | f, .call _ a reach passes :: rest =>
+    (!reach || f) &&
+    (!passes || a = some .param || (a = some .engineField && f)) && freshOK f rest
 
 /-- `tick_iterate_subticks`: the first statement assigns the field from the parameter (before any generator is
     stepped) and no later statement assigns it anything else -/
